@@ -86,12 +86,20 @@ def base():
     return _BASE
 
 
+# "until running becomes false": user code clears the flag with any falsy value, not only with the object False
+FALSY = [False, 0, None, "", [], 0.0, ()]
+
+
+def falsy(k):
+    return FALSY[k % len(FALSY)]
+
+
 def body(self, label, args):
     """what a generated step body does (module-level twin of Base._body for classes that do not derive from Base)"""
     self.rec.append((label, self.steps, tuple(args)))
     self.execs += 1
     if self.execs >= self.stop_at:
-        self.running = False
+        self.running = falsy(self.execs + getattr(self, "idx", 0))
     sub = getattr(self, "sub", None)
     if sub is not None:
         # a coupled model: this step body steps a sub-model (a nested step() call on another instance)
@@ -383,7 +391,7 @@ class Impl:
             self.trace.append(("rearm", i, before, self.snapshot()))
             return f"ok || {self.all()}"
         if k == "halt":
-            m.running = False
+            m.running = falsy(i + m.execs + 1)
             self.trace.append(("halt", i, before, self.snapshot()))
             return f"ok || {self.all()}"
         raise ValueError(w)
